@@ -91,7 +91,8 @@ func runC02(c *Check) {
 		states = append(states, k)
 	}
 	sort.Strings(states)
-	c.extra["states"] = states
+	c.extra["states"] = len(states)
+	c.extra["state_names"] = states
 	graph := map[string]map[string]bool{}
 
 	c.Rule("C02.AUTO-i", func() {
